@@ -85,7 +85,68 @@ def run_parallel_duck(spec):
     return {'viol': list(V), 'evals': V.evals, 'nontrivial': phases >= 3, 'classes': ['parallel_duck'], 'summary': {'phases': phases}}
 
 
+def run_step_delete(spec):
+    """One step of a dependency graph is deleted by a process while other steps depend on it: from the next
+    phase on, every step that is still in the hierarchy runs exactly once per phase, after the steps it still
+    depends on; the deleted step never runs again."""
+    from vivarium.core.engine import Engine
+    from vivarium.core.process import Process, Step
+    V = Viol()
+    log = []
+    names = spec['names']
+    deps = {k: list(v) for k, v in spec['deps'].items()}
+
+    class S(Step):
+        def ports_schema(self):
+            return {'x': {self.parameters['name']: {'_default': 0, '_updater': 'accumulate'}}}
+
+        def next_update(self, timestep, states):
+            log.append(self.parameters['name'])
+            return {'x': {self.parameters['name']: 1}}
+
+    class Killer(Process):
+        def ports_schema(self):
+            return {'x': {'k': {'_default': 0, '_updater': 'accumulate'}}, 'top': {}}
+
+        def next_update(self, timestep, states):
+            log.append('tick')
+            if states['x']['k'] == spec['at']:
+                return {'x': {'k': 1}, 'top': {'_delete': [(spec['victim'],)]}}
+            return {'x': {'k': 1}}
+    nontrivial = False
+    try:
+        e = Engine(processes={'killer': Killer({'timestep': 1.0})}, steps={n: S({'name': n}) for n in names},
+                   flow={n: [(d,) for d in deps[n]] for n in names},
+                   topology=dict({'killer': {'x': ('x',), 'top': ()}}, **{n: {'x': ('x',)} for n in names}),
+                   emitter='null', display_info=False, progress_bar=False)
+        del log[:]
+        for _ in range(spec['at'] + 4):
+            start = len(log)
+            e.update(1.0)
+            phase = [n for n in log[start:] if n != 'tick']
+            present = sorted(n for n in names if n in e.state.inner)
+            V.check('steps_once_per_phase', sorted(phase) == present,
+                    lambda: ('steps %r with flow %r, step %r deleted by a process at its invocation %d: after the batch at t=%r the hierarchy '
+                             'holds the steps %r but the step phase invoked %r' % (names, deps, spec['victim'], spec['at'] + 1, e.global_time, present, phase)))
+            order_ok = all(phase.index(d) < phase.index(n) for n in phase for d in deps[n] if d in phase)
+            V.check('dependency_order', order_ok, lambda: ('step phase order %r contradicts the flow %r' % (phase, deps)))
+            if spec['victim'] not in present and any(spec['victim'] in deps[n] for n in present):
+                nontrivial = True
+        V.check('no_exception', True)
+    except Exception as ex:
+        import traceback
+        V.check('no_exception', False, ('engine raised', type(ex).__name__, str(ex)[:200], traceback.format_exc()[-400:]))
+    return {'viol': list(V), 'evals': V.evals, 'nontrivial': nontrivial, 'classes': ['step_delete'], 'summary': {}}
+
+
 def gen(r, tier, i):
+    if i % 40 == 7:
+        shape = r.choice(['chain', 'diamond', 'fan', 'two_chains'])
+        deps = {'chain': {'a': [], 'b': ['a'], 'c': ['b']},
+                'diamond': {'a': [], 'b': ['a'], 'c': ['a'], 'd': ['b', 'c']},
+                'fan': {'a': [], 'b': ['a'], 'c': ['a'], 'd': []},
+                'two_chains': {'a': [], 'b': ['a'], 'c': [], 'd': ['c']}}[shape]
+        return {'family': 'step_delete', 'names': sorted(deps), 'deps': deps, 'victim': r.choice(sorted(deps)), 'at': r.randint(0, 2)}
     if i % 300 == 5:
         from vmon import sched
         procs = [{'pid': pid, 'ts': {'kind': 'const', 'v': r.choice([0.5, 1.0, 1.5])}} for pid in range(r.randint(1, 2))]
@@ -137,6 +198,8 @@ def gen(r, tier, i):
 def run(spec):
     if spec.get('family') == 'parallel_duck':
         return run_parallel_duck(spec)
+    if spec.get('family') == 'step_delete':
+        return run_step_delete(spec)
     if spec.get('family') == 'structural':
         from vmon.checks import c10
         from vmon.util import harvest
@@ -361,7 +424,7 @@ def run(spec):
 
 
 MANIFEST = {
-    'text': 'Exploration with an exhaustive core: every DAG on <=4 steps (x 0-2 derivers, random declaration order) plus thousands of random nested flows of up to 8 steps with legacy derivers and 1-3 timed processes. Unique tokens carrying the ledger each step saw, the append-only ledger and the recording emitter give a total history; the checker validates exactly-once per phase, timestep 0, ancestor/descendant visibility, equal views per topological generation, derivers first in declaration order, and visibility of the batch\'s process updates.',
+    'text': 'Exploration with an exhaustive core: every DAG on <=4 steps (x 0-2 derivers, random declaration order) plus thousands of random nested flows of up to 8 steps with legacy derivers and 1-3 timed processes. Unique tokens carrying the ledger each step saw, the append-only ledger and the recording emitter give a total history; the checker validates exactly-once per phase, timestep 0, ancestor/descendant visibility, equal views per topological generation, derivers first in declaration order, and visibility of the batch\'s process updates. Family step_delete: one step of a chain / diamond / fan is deleted by a process while others depend on it; every step still in the hierarchy must be invoked exactly once in each later phase, in an order consistent with the remaining flow (D88).',
     'note': 'Reference generations = longest-path depth; deriver order across different dictionaries and order inside a generation not asserted; ".." dependency paths excluded.',
     'technique': 'runtime monitoring: token/ledger history with per-step seen-sets checked offline against the DAG\'s reference closure',
 }
